@@ -231,6 +231,12 @@ func (c *Ctx) checkThriftStruct(rule, short, typ string) {
 							endOK = true
 						}
 					}
+					if !elemOK && endOK {
+						// decided on SSA: any loop form that visits every index of p.F once and calls the
+						// element's Write exactly once per iteration (range by index, classic index loop,
+						// element copied into a local first)
+						elemOK = c.listWriterLoopSSA(short, typ, name, row.goField)
+					}
 					if !elemOK || !endOK {
 						fail(val.call.Pos(), ":"+name, "the list writer does not write every element of p."+row.goField+" followed by the list end")
 					}
@@ -752,4 +758,69 @@ func (c *Ctx) checkCalculateSize(rule string) {
 		}
 	}
 	c.check(ok, rule, key, fn.Pos(), "lock -> Write(calcProto) -> GetCount -> ResetCount -> unlock; returns the count", why)
+}
+
+// listWriterLoopSSA: method typ.name contains exactly one loop over every index of recv.<field> in
+// which Write is called once per iteration on the loop's element (or on a local copy of it).
+func (c *Ctx) listWriterLoopSSA(short, typ, name, field string) bool {
+	fn := c.fn(short, typ, name)
+	if fn == nil || len(fn.Params) == 0 {
+		return false
+	}
+	want := accessPath(fn.Params[0]) + "." + field
+	for _, fl := range fullIndexLoops(fn) {
+		if fl.list != want {
+			continue
+		}
+		var calls []ssa.Instruction
+		for b := range fl.loop.Blocks {
+			for _, in := range b.Instrs {
+				call, ok := in.(*ssa.Call)
+				if !ok {
+					continue
+				}
+				g := staticCallee(call)
+				if g == nil || g.Name() != "Write" || g.Signature.Recv() == nil || len(call.Call.Args) != 2 {
+					continue
+				}
+				r := call.Call.Args[0]
+				isElem := false
+				switch x := r.(type) {
+				case *ssa.IndexAddr:
+					isElem = x.Index == fl.idx && accessPath(x.X) == fl.list
+				case *ssa.Alloc:
+					// a local copy of the element: exactly one store, of L[idx]
+					n := 0
+					if x.Referrers() != nil {
+						for _, u := range *x.Referrers() {
+							if st, isSt := u.(*ssa.Store); isSt && st.Addr == ssa.Value(x) {
+								n++
+								if fl.elemOf(st.Val) {
+									isElem = true
+								}
+							}
+						}
+					}
+					if n != 1 {
+						isElem = false
+					}
+				default:
+					isElem = fl.elemOf(r)
+				}
+				if isElem && canon(call.Call.Args[1]) == ssa.Value(fn.Params[1]) {
+					calls = append(calls, in)
+				}
+			}
+		}
+		if len(calls) != 1 {
+			return false
+		}
+		for _, latch := range fl.loop.Latch {
+			if !calls[0].Block().Dominates(latch) {
+				return false
+			}
+		}
+		return true
+	}
+	return false
 }
